@@ -9,7 +9,7 @@ import re
 
 
 def norm(text):
-    return re.sub(r'-?\d+', 'N', text)[:110]
+    return re.sub(r'-?\d+', 'N', text)[:60]
 
 
 def analyse(ctx):
